@@ -382,6 +382,9 @@ func genTreeDir(t *rapid.T, name string, depth int, isRoot bool) *lib.Node {
 			}
 		}
 	}
+	if depth > 0 && !used[".hid"] && rapid.IntRange(0, 3).Draw(t, "hiddendir") == 0 {
+		add(genTreeDir(t, ".hid", depth-1, false))
+	}
 	if isRoot && rapid.IntRange(0, 2).Draw(t, "plzout") == 0 {
 		add(&lib.Node{Name: "plz-out", Dir: true, Children: []*lib.Node{{Name: "gen", Dir: true, Children: []*lib.Node{{Name: "a.go", Content: "generated"}}}, {Name: "a.go", Content: "generated"}}})
 	}
